@@ -149,9 +149,15 @@ type c05case struct {
 	setting string
 	k       int // the device goes silent after byte k of the exchange (-1: never)
 	seed    uint64
+	// pacing before the stall: the device delivers bytes 0..k1, then nothing for paceMs, then the
+	// bytes up to k, then goes silent (paceMs = 0: no pacing)
+	k1, paceMs int
 }
 
 func (cs c05case) line() string {
+	if cs.paceMs > 0 {
+		return fmt.Sprintf("c05case %s %d %d %s %d %d %d %d", cs.kind, cs.variant, cs.seg, cs.setting, cs.k, cs.seed, cs.k1, cs.paceMs)
+	}
 	return fmt.Sprintf("c05case %s %d %d %s %d %d", cs.kind, cs.variant, cs.seg, cs.setting, cs.k, cs.seed)
 }
 
@@ -174,6 +180,8 @@ func c05timeouts(cs c05case) (conn, perOp time.Duration) {
 	switch cs.setting {
 	case "ref":
 		return c05Long, -1
+	case "paced": // well above the slack even when half of it is spent before the stall
+		return base + 2*c05Slack + 170*time.Millisecond, -1
 	case "clong": // a connection-wide timeout well above the slack, so that a wrong multiple of it shows
 		return base + 200*time.Millisecond, -1
 	case "pshort": // per-operation override shorter than the connection-wide value
@@ -237,6 +245,9 @@ type c05env struct {
 	beforeNext func()
 	nextCheck  func() string
 	refClass   string // error class of the complete (un-stalled) exchange ("" = nil)
+	// unitStart[i]: first phase of the sub-operation (one context / timer) phase i belongs to
+	// (nil: the whole operation runs under one context)
+	unitStart []int
 }
 
 func hx(s string) string { return vlib.Hex([]byte(s)) }
@@ -453,6 +464,7 @@ func c05build(cs c05case) (*c05env, error) {
 				return r.Result, nil
 			}
 			e.phaseWrites = []int{2, 2}
+			e.unitStart = []int{0, 1}
 			e.modelKind = "cb"
 			e.modelParams = []string{"0a", hx("clear logging"), "2", hx("confirm:"), "0", hx("y"), hx("router#"), "1", "-"}
 			if cs.variant == 1 {
@@ -512,10 +524,11 @@ func c05build(cs c05case) (*c05env, error) {
 			ms := strconv.Itoa(int(eff / time.Millisecond))
 			e.modelKind = "sg"
 			e.modelParams = []string{"1000", "0a", strconv.Itoa(len(cmds))}
-			for _, cm := range cmds {
+			for i, cm := range cmds {
 				e.modelParams = append(e.modelParams, "s", ms, "1", hx(cm))
 				e.phaseWrites = append(e.phaseWrites, 1, 1)
 				e.cleanPhase = append(e.cleanPhase, false, true)
+				e.unitStart = append(e.unitStart, 2*i, 2*i)
 			}
 			e.cmpResult = false
 		}
@@ -559,6 +572,7 @@ func c05build(cs c05case) (*c05env, error) {
 		e.nextWant = c05nextWant
 		e.phaseWrites = []int{1, 1, 1, 1, 1, 1}
 		e.cleanPhase = []bool{true, false, true, true, false, true}
+		e.unitStart = []int{0, 1, 1, 3, 4, 4}
 		e.beforeNext = func() { d.Channel.TimeoutOps = c05Long }
 		e.modelKind = "nw"
 		e.T = conn
@@ -620,6 +634,7 @@ func c05build(cs c05case) (*c05env, error) {
 		nunits := 0
 		addG := func() {
 			units = append(units, "g", ms(conn))
+			e.unitStart = append(e.unitStart, len(e.phaseWrites))
 			e.phaseWrites = append(e.phaseWrites, 1)
 			e.cleanPhase = append(e.cleanPhase, true)
 			wants = append(wants, conn)
@@ -627,6 +642,7 @@ func c05build(cs c05case) (*c05env, error) {
 		}
 		addS := func(t time.Duration, cmd string) {
 			units = append(units, "s", ms(t), "1", hx(cmd))
+			e.unitStart = append(e.unitStart, len(e.phaseWrites), len(e.phaseWrites))
 			e.phaseWrites = append(e.phaseWrites, 1, 1)
 			e.cleanPhase = append(e.cleanPhase, false, true)
 			wants = append(wants, t, t)
@@ -678,6 +694,7 @@ func c05build(cs c05case) (*c05env, error) {
 			addS(conn, "configure terminal")
 			addG()
 			units = append(units, "i", ms(eff), "2", hx("set q1"), "-", "0", hx("set q2"), "-", "0")
+			e.unitStart = append(e.unitStart, len(e.phaseWrites), len(e.phaseWrites))
 			e.phaseWrites = append(e.phaseWrites, 2, 2)
 			e.cleanPhase = append(e.cleanPhase, true, true)
 			wants = append(wants, eff, eff)
@@ -1000,8 +1017,12 @@ func c05run(cs c05case, recoverAt func(k int) bool) c05obs {
 		o.setupErr = "build: " + err.Error()
 		return o
 	}
+	firstStall := cs.k
+	if cs.paceMs > 0 && cs.k1 >= 0 && cs.k1 < cs.k {
+		firstStall = cs.k1
+	}
 	if e.openIsOp && cs.k >= 0 {
-		e.pipe.SetFaults(func(p *sim.Pipe) { p.StallAt = cs.k })
+		e.pipe.SetFaults(func(p *sim.Pipe) { p.StallAt = firstStall })
 	}
 	e.start()
 	if e.prelude != nil {
@@ -1026,11 +1047,22 @@ func c05run(cs c05case, recoverAt func(k int) bool) c05obs {
 			o.e0 = p.Delivered
 			w0, r0 = len(p.Writes), len(p.ReadLog)
 			if cs.k >= 0 {
-				p.StallAt = o.e0 + cs.k
+				p.StallAt = o.e0 + firstStall
 			}
 		})
 	}
 	o.phaseWrites = e.phaseWrites
+	if firstStall != cs.k {
+		// the device pauses at k1 for paceMs (measured from the operation's start), then goes on to k
+		go func(e0 int) {
+			time.Sleep(time.Duration(cs.paceMs) * time.Millisecond)
+			e.pipe.SetFaults(func(p *sim.Pipe) {
+				if p.StallAt == e0+firstStall {
+					p.StallAt = e0 + cs.k
+				}
+			})
+		}(o.e0)
+	}
 	res, opErr, el, hang, pmsg := c05guardT(e.op, c05wd(cs))
 	o.result, o.elapsed, o.hang, o.panicMsg = res, el, hang, pmsg
 	o.class = errClass(opErr)
@@ -1170,8 +1202,22 @@ func c05deliv(ref *c05ref, o c05obs) (per [][][]byte, straddle bool) {
 
 func c05modelLine(cs c05case, e *c05env, ref *c05ref, per [][][]byte) string {
 	var dl []string
+	off, marked := 0, false
 	for _, chunks := range per {
-		dl = append(dl, vlib.HexList(chunks))
+		var items []string
+		for _, ch := range chunks {
+			if cs.paceMs > 0 && !marked && off >= cs.k1 {
+				items = append(items, "~"+strconv.Itoa(cs.paceMs))
+				marked = true
+			}
+			items = append(items, vlib.Hex(ch))
+			off += len(ch)
+		}
+		if len(items) == 0 {
+			dl = append(dl, ".")
+		} else {
+			dl = append(dl, strings.Join(items, ","))
+		}
 	}
 	k := cs.k
 	if k < 0 {
@@ -1269,12 +1315,16 @@ func runC05(c *ctx) {
 		"Wall-clock bound elapsed <= T + 100ms + 3 read delays is measured (declared slack), not proved."
 	if c.replay != "" {
 		f := strings.Fields(c.replay)
-		if len(f) == 7 && f[0] == "c05case" {
+		if (len(f) == 7 || len(f) == 9) && f[0] == "c05case" {
 			v, _ := strconv.Atoi(f[2])
 			sg, _ := strconv.Atoi(f[3])
 			k, _ := strconv.Atoi(f[5])
 			sd, _ := strconv.ParseUint(f[6], 10, 64)
 			cs := c05case{kind: f[1], variant: v, seg: sg, setting: f[4], k: k, seed: sd}
+			if len(f) == 9 {
+				cs.k1, _ = strconv.Atoi(f[7])
+				cs.paceMs, _ = strconv.Atoi(f[8])
+			}
 			if cs.kind == "f12" {
 				c05f12(c, 3000)
 				return
@@ -1318,8 +1368,12 @@ func runC05(c *ctx) {
 					}
 				}
 			}
-			// a few stall points per phase under a timeout well above the slack
+			// a few stall points per phase under a timeout well above the slack (thorough; in the
+			// quick tier the paced cases below run under such a timeout and serve this purpose too)
 			for i, st := range ref.starts {
+				if !c.thorough() {
+					break
+				}
 				end := ref.total
 				if i+1 < len(ref.starts) {
 					end = ref.starts[i+1]
@@ -1336,6 +1390,44 @@ func runC05(c *ctx) {
 				for _, k := range ks {
 					if k < ref.total {
 						cases = append(cases, c05case{kind: kind, variant: v, seg: seg, setting: "clong", k: k, seed: c.rng.U64()})
+					}
+				}
+			}
+			// DEVICE PACING before the stall: the bytes before the stall point take 30-70 % of the
+			// timeout in force (a pause inside the same sub-operation, e.g. a slow echo), then the
+			// stall; the bound stays "T since the sub-operation started", never T + time already spent
+			if e0, err := c05build(c05case{kind: kind, variant: v, setting: "paced", seed: 1}); err == nil {
+				for i, st := range ref.starts {
+					end := ref.total
+					if i+1 < len(ref.starts) {
+						end = ref.starts[i+1]
+					}
+					u := 0
+					if e0.unitStart != nil && i < len(e0.unitStart) {
+						u = e0.unitStart[i]
+					}
+					ks := []int{(st + end) / 2}
+					if c.thorough() {
+						ks = []int{st, (st + end) / 2, end - 1}
+					} else if v > 1 && i != len(ref.starts)-1 {
+						continue
+					}
+					for _, k := range ks {
+						k1 := (ref.starts[u] + k) / 2
+						if k <= 0 || k >= ref.total || k1 >= k {
+							continue
+						}
+						seg, pct := 0, 50+10*c.rng.Intn(3)
+						if c.thorough() {
+							seg, pct = c.rng.Intn(3), 30+10*c.rng.Intn(5)
+						}
+						cs := c05case{kind: kind, variant: v, seg: seg, setting: "paced", k: k, seed: c.rng.U64(), k1: k1}
+						ec, err := c05build(cs)
+						if err != nil {
+							continue
+						}
+						cs.paceMs = pct * int(ec.wantT(i)/time.Millisecond) / 100
+						cases = append(cases, cs)
 					}
 				}
 			}
